@@ -522,10 +522,17 @@ def _confidence(ctx, f):
           and isinstance(n.func, ast.Attribute)
           and n.func.attr == "sort_values"
           and norm_calls(prog, T.of(n.func.value)) == PICK]
-    ok_s = len(sv) == 1 and {k.arg: T.of(k.value)
-                             for k in sv[0].keywords} == {
-        "by": ("attr", SELF, "_score_column"),
-        "ascending": ("const", False)}
+    ok_s = False
+    if len(sv) == 1:
+        st_ = T.of(sv[0])
+        kw_ = dict(st_[4]) if st_[0] == "mcall" else {}
+        by_ = kw_.get("by", st_[3][0] if st_[0] == "mcall" and st_[3]
+                      else None)
+        asc_ = kw_.get("ascending", st_[3][2] if st_[0] == "mcall"
+                       and len(st_[3]) > 2 else ("const", True))
+        ok_s = by_ in (("attr", SELF, "_score_column"),
+                       ("list", (("attr", SELF, "_score_column"),))) and \
+            asc_ == ("const", False)
     ctx.check(ok_s, "C15c-protein-level-sorted", f,
               "protein entries are written best first, like the other "
               "levels", f"{[ast.unparse(s)[:80] for s in sv]}",
